@@ -120,6 +120,20 @@ func errHandled(c *Ctx, nr *noRet, call ssa.CallInstruction, eidx int) (ok bool,
 	if len(errVals) == 0 {
 		return false, nil, "the error result is discarded"
 	}
+	// an error assigned to a variable shared by several writes (err = f(); ...; if err != nil) reaches its
+	// test through phi nodes: the merged values stand for the error too
+	seenVal := map[ssa.Value]bool{}
+	for _, ev := range errVals {
+		seenVal[ev] = true
+	}
+	for i := 0; i < len(errVals); i++ {
+		for _, r := range *errVals[i].Referrers() {
+			if phi, ok := r.(*ssa.Phi); ok && !seenVal[phi] {
+				seenVal[phi] = true
+				errVals = append(errVals, phi)
+			}
+		}
+	}
 	handled := false
 	for _, ev := range errVals {
 		// follow through phis / stores to a named result are not needed for the idioms in this repository
